@@ -34,6 +34,9 @@ def tasks(tier):
     t.append(dict(module="scal", fn="h_kkt", shape=dict(W0=3, n=1, m=1, unwind=3), opts=so(8, 24, sqrt_model="lazy")))
     for kind in ("GradJac", "Nominal"):
         t.append(dict(module="scal", fn="h_dispatch", shape=dict(W0=3, kind=kind, policy="memo"), opts=so(8, 24)))
+    # single working precision over double-precision callbacks: conversions must not touch the caller's objects
+    for pol, fmt, c, W in (("cached", "coo", ["eq0"], 0), ("memo", "csr", ["eq0"], 0), ("cached", "csc", ["eqb"], 0), ("memo", "coo", ["ge"], 1)):
+        t.append(dict(module="xform", fn="h_transform", shape=dict(vars=["boxed"], cons=c, W=W, fmt=fmt, policy=pol, rounds=2, single=True), opts=dict(exp_window=(-4, 4))))
     if tier == "quick":
         for pol in ("cached", "memo"):
             for k, (fmt, c, W) in enumerate([("coo", ["eq0"], 1), ("csr", ["ge"], 1), ("csc", ["eqb"], 1), ("coo", ["eqb"], 0), ("csr", ["ranged"], 0), ("coo", ["ge"], 0)]):
